@@ -56,9 +56,12 @@ func DecodeEnvelope(data []byte) (Envelope, error) {
 	return env, nil
 }
 
-// IsLfsEnvelope detects an LFS envelope via a quick JSON marker check.
+// IsLfsEnvelope detects an LFS envelope via a quick JSON marker check: the
+// value starts with '{' and the "kfs_lfs" key occurs within its first 50 bytes.
+// The Python and JavaScript SDKs implement exactly this byte-level rule; there
+// is no separate minimum length, so all three agree on every byte string.
 func IsLfsEnvelope(value []byte) bool {
-	if len(value) < 15 {
+	if len(value) == 0 {
 		return false
 	}
 	if value[0] != '{' {
